@@ -37,7 +37,7 @@ func init() {
 	register(&PropDef{
 		ID:          "C07",
 		Level:       "other",
-		Explanation: "The numeric lower bound trusts time.AfterFunc; decided is what is armed and what is gated on it: a delayed job is never started by the request itself (admission table: delay>0 ∧ ¬ignore ⇒ ≠ Start on all order types; the accept function passes ignore=false); the timer is armed iff the job's own delay > 0, with the job's own StartDelay (taken from the definition at accept time) and a callback that addresses the job's own id; in the dequeue function every path to the start call takes the `head.startTimer == nil` edge; the timer is cleared only by the expiry handler or where the job leaves the list for good; the expiry handler clears and re-runs the dequeue (no second delay); under replace the previous job is marked canceled (hence refused by the start function), its slot is overwritten by the newest job at the last index; the retention decision keeps every waiting job on all order types of its inputs (the expiry handler finds the job by id, so a delayed job removed from the index would never start). SLOT ACCOUNTING — the running predicate is exactly started ∧ ¬completed ∧ ¬canceled (8-row table): a slot is taken neither longer nor shorter than the job runs, so an expired delay is honoured as soon as a slot is really free.",
+		Explanation: "The numeric lower bound trusts time.AfterFunc; decided is what is armed and what is gated on it: a delayed job is never started by the request itself (admission table: delay>0 ∧ ¬ignore ⇒ ≠ Start on all order types; the accept function passes ignore=false); the timer is armed iff the job's own delay > 0, with the job's own StartDelay (taken from the definition at accept time) and a callback that addresses the job's own id; in the dequeue function every path to the start call takes the `head.startTimer == nil` edge; the timer is cleared only by the expiry handler or where the job leaves the list for good; the expiry handler clears and re-runs the dequeue (no second delay); under replace the previous job is marked canceled (hence refused by the start function), its slot is overwritten by the newest job at the last index; the retention decision keeps every waiting job on all order types of its inputs (the expiry handler finds the job by id, so a delayed job removed from the index would never start). SLOT ACCOUNTING — the running predicate is exactly started ∧ ¬completed ∧ ¬canceled (8-row table): a slot is taken neither longer nor shorter than the job runs, so an expired delay is honoured as soon as a slot is really free. TIMER USE — every Stop/Reset on a job's start timer read from the field lies behind the `startTimer != nil` edge of a test of the same job (the field is nil for jobs without delay: an inverted guard panics under the lock when such a job is replaced).",
 		Trusted:     []string{"time.AfterFunc does not fire early", "C13"},
 		NotDecided:  []string{"the numeric bound ≥ d", "that the newest job eventually runs (liveness)"},
 		Check: func(w *World, r *Report) {
@@ -51,6 +51,7 @@ func init() {
 			ro.acceptEffects(r, map[string]bool{"ignore-false": true, "timer": true, "per-action": true, "snapshot": true})
 			ro.dequeueLoop(r, map[string]bool{"timer-gate": true})
 			ro.expiryHandler(r, "expiry")
+			ro.timerUseGuarded(r, "timer-use")
 			ro.canceledSites(r, "canceled-site")
 			ro.slotEnd(r, "slot-end")
 			// a waiting (delayed) job is never removed by retention: the expiry handler looks the job up by id
